@@ -989,6 +989,9 @@ func exportable(t *Term) bool {
 // expandFact derives further facts from a fact about the result of a call to
 // a summarised repository function: (err == nil) or (ok == true).
 func (fi *FuncInfo) expandFact(f Fact, depth int) []Fact {
+	if out := absFacts(f); out != nil {
+		return out
+	}
 	var callT *Term
 	idx := 0
 	whenFalse := false
@@ -1683,4 +1686,121 @@ func rootIsParam(addr *Term) bool {
 		}
 	}
 	return false
+}
+
+// GuardAlternatives spells out a guard that is a boolean flag set on several ways (ban := false; if a { ban = true };
+// if b { ban = true }; if ban { store }): when the facts at in contain a boolean join phi, the result has one fact set
+// per way the flag became true (the facts at the end of the edge that carries the constant true, together with the
+// other facts at in); a way that carries false contributes nothing. Without such a phi the result is the facts at in.
+func (fi *FuncInfo) GuardAlternatives(in ssa.Instruction) []FactSet {
+	facts := fi.FactsAt(in)
+	var flag *ssa.Phi
+	var flagKey string
+	for _, f := range facts.Sorted() {
+		if f.Neg || f.T.K != KPhi {
+			continue
+		}
+		if ph, ok := f.T.Val.(*ssa.Phi); ok && isBoolType(ph.Type()) {
+			flag, flagKey = ph, f.Key()
+			break
+		}
+	}
+	if flag == nil {
+		return []FactSet{facts}
+	}
+	rest := FactSet{}
+	for k, f := range facts {
+		if k != flagKey {
+			rest[k] = f
+		}
+	}
+	seen := map[*ssa.Phi]bool{}
+	onStack := map[*ssa.Phi]bool{}
+	ok := true
+	var expand func(ph *ssa.Phi) []FactSet
+	expand = func(ph *ssa.Phi) []FactSet {
+		if onStack[ph] {
+			ok = false // a flag carried around a loop
+			return nil
+		}
+		if seen[ph] {
+			return nil // the same earlier flag value on a second edge: its ways are listed already
+		}
+		seen[ph] = true
+		onStack[ph] = true
+		defer func() { onStack[ph] = false }()
+		var out []FactSet
+		for i, e := range ph.Edges {
+			pred := ph.Block().Preds[i]
+			if c, isC := e.(*ssa.Const); isC {
+				if c.Value != nil && c.Value.String() == "true" {
+					fs := FactSet{}
+					if n := len(pred.Instrs); n > 0 {
+						for k, f := range fi.FactsAt(pred.Instrs[n-1]) {
+							fs[k] = f
+						}
+					}
+					for _, f := range fi.EdgeFacts(pred, ph.Block()) {
+						fs[f.Key()] = f
+					}
+					out = append(out, fs)
+				}
+				continue
+			}
+			if inner, isPhi := e.(*ssa.Phi); isPhi && isBoolType(inner.Type()) {
+				out = append(out, expand(inner)...)
+				continue
+			}
+			ok = false
+		}
+		return out
+	}
+	alts := expand(flag)
+	if !ok || len(alts) == 0 {
+		return []FactSet{facts}
+	}
+	for _, a := range alts {
+		for k, f := range rest {
+			if _, have := a[k]; !have {
+				a[k] = f
+			}
+		}
+	}
+	return alts
+}
+
+// absFacts: a comparison of math.Abs(x) with a constant c says the same about x itself: Abs(x) < c is -c < x and x < c;
+// c <= Abs(x) is x <= -c or c <= x (for every float64, NaN included: both forms are false resp. true for NaN).
+func absFacts(f Fact) []Fact {
+	t := f.T
+	if f.Neg || t.K != KBin || (t.S != "<" && t.S != "<=") || len(t.A) != 2 {
+		return nil
+	}
+	absArg := func(x *Term) *Term {
+		if (x.K == KCall || x.K == KPure) && x.Callee() == "math.Abs" && len(x.A) == 1 {
+			return x.A[0]
+		}
+		return nil
+	}
+	neg := func(c string) string {
+		if strings.HasPrefix(c, "-") {
+			return c[1:]
+		}
+		return "-" + c
+	}
+	if x := absArg(t.A[0]); x != nil {
+		if c, ok := t.A[1].IsConst(); ok {
+			hi := mk(KConst, c, t.A[1].Typ, nil)
+			lo := mk(KConst, neg(c), t.A[1].Typ, nil)
+			return []Fact{{T: normalize(mk(KBin, t.S, nil, nil, x, hi))}, {T: normalize(mk(KBin, t.S, nil, nil, lo, x))}}
+		}
+	}
+	if x := absArg(t.A[1]); x != nil {
+		if c, ok := t.A[0].IsConst(); ok {
+			hi := mk(KConst, c, t.A[0].Typ, nil)
+			lo := mk(KConst, neg(c), t.A[0].Typ, nil)
+			return []Fact{orFact(Fact{T: normalize(mk(KBin, t.S, nil, nil, x, lo))}, Fact{T: normalize(mk(KBin, t.S, nil, nil, hi, x))})}
+		}
+	}
+	return nil
 }
